@@ -1,5 +1,6 @@
 (** NumpyBilateral: the numerical pipelines of [lymph.models.Bilateral] ([state_dist], [obs_dist], [patient_likelihoods],
-    [_bn_likelihood], [_hmm_likelihood]) read with numpy's shape semantics, line by line as the Python code is written
+    [_bn_likelihood], [_hmm_likelihood], and, in the second half of the file, [posterior_state_dist], [marginalize],
+    [risk]) read with numpy's shape semantics, line by line as the Python code is written
     ([np_bi_<function>]), and the STATIC proofs that these readings equal the hand-written model of Bilateral.v.
 
     Same architecture as NumpyPipelines.v (whose primitives and lemmas are reused): the model states every transpose with
@@ -33,7 +34,7 @@ Definition np_diag (v : vec) : mat :=
   map (fun i => map (fun j => if Nat.eqb i j then nth i v 0 else 0) (seq 0 (length v))) (seq 0 (length v)).
 (** [np.outer(u, v)] for two 1-D arrays *)
 Definition np_outer (u v : vec) : mat := map (fun a => map (fun b => a * b) v) u.
-(** [A * B] for two 2-D arrays of equal shape; [np.sum(M)] of a 2-D array; [M / z] for a scalar [z] *)
+(** [np.sum(M)] of a 2-D array *)
 Definition np_sum2 (M : mat) : Qc := sumQ (map sumQ M).
 (** [matrix.fast_trace(left, right)]: the reading of its body in NumpyMatrix.v, [left] of shape (len(left), ncols left) *)
 Definition np_fast_trace_nc (left right : mat) : vec := np_fast_trace (ncols left) left right.
@@ -344,3 +345,354 @@ Corollary np_bi_hmm_likelihood_wf b data t : wf_bilateral b = true ->
                        (diagnosis_matrix (b_contra b) (map contra_patient data)) (bi_t_stages b) t
   = bi_hmm_likelihood_factors b data t.
 Proof. intros H. destruct (wf_bilateral_graphs b H). apply np_bi_hmm_likelihood_model; assumption. Qed.
+
+(** * posterior_state_dist, marginalize, risk *)
+(** ** Python / numpy primitives (the translator's reading; trusted base) *)
+(** [matrix.compute_encoding(lnls, pattern, base)]: [Observation.compute_encoding], its ValueError = [inl MValue]
+    (tied to the source by the pieces [element] / [compute_encoding] of translate.py / translate2.py) *)
+Definition np_encoding_res (lnl_names : list string) (p : pattern) (b : nat) : res bvec :=
+  match compute_encoding lnl_names p b with None => inl MValue | Some e => inr e end.
+(** a boolean array used in [@] is promoted to 0.0 / 1.0 *)
+Definition np_b2q (e : bvec) : vec := map b2q e.
+(** [M / z] for a 2-D array and a scalar: [None] = NaN / inf entries when z = 0 (neither is a rational) *)
+Definition np_div2 (M : mat) (z : Qc) : option mat :=
+  if Qc_eqb z 0 then None else Some (map (map (fun a => a / z)) M).
+(** [enc @ M] for a boolean 1-D array and a 2-D array that may be NaN ([None]); [v @ enc] for a 1-D array that may be
+    NaN and a boolean 1-D array: every product with a NaN array is NaN *)
+Definition np_bvecmat_nan (enc : bvec) (M : option mat) : option vec :=
+  match M with None => None | Some M => Some (NumpyPipelines.np_vecmat (np_b2q enc) M) end.
+Definition np_dotb_nan (v : option vec) (enc : bvec) : option Qc :=
+  match v with None => None | Some v => Some (dot v (np_b2q enc)) end.
+
+(** ** posterior_state_dist
+    if given_state_dist is None:
+        utils.safe_set_params(self, given_params)                    (the model [b] is the model after this call)
+        given_state_dist = self.state_dist(t_stage=t_stage, mode=mode)
+    if given_diagnosis is None: given_diagnosis = {}
+    diagnosis_given_state = {}
+    for side in ["ipsi", "contra"]:                                  (unrolled)
+        if side not in given_diagnosis: warnings.warn(...)
+        diagnosis_encoding = getattr(self, side).compute_encoding(given_diagnosis.get(side, {}))
+        observation_matrix = getattr(self, side).observation_matrix()
+        diagnosis_given_state[side] = diagnosis_encoding @ observation_matrix.T
+    joint_diagnosis_and_state = np.outer(diagnosis_given_state["ipsi"], diagnosis_given_state["contra"]) * given_state_dist
+    return joint_diagnosis_and_state / np.sum(joint_diagnosis_and_state)
+    [ipsi_enc d], [contra_enc d] = self.ipsi / self.contra .compute_encoding(d);
+    [given_diagnosis_ipsi], [given_diagnosis_contra] = given_diagnosis.get(side, {}) after the None default *)
+Definition np_bi_posterior_state_dist (ipsi_evo contra_evo : mat) (pmf_of : string -> res vec)
+  (ipsi_sd contra_sd : string -> bool -> res vec) (ipsi_obs contra_obs : mat) (ipsi_enc contra_enc : diagnosis -> res bvec)
+  (given_state_dist : option mat) (given_diagnosis_ipsi given_diagnosis_contra : diagnosis)
+  (t_stage : string) (hmm : bool) : res (option mat) :=
+  bind (match given_state_dist with
+        | None => np_bi_state_dist ipsi_evo contra_evo pmf_of ipsi_sd contra_sd t_stage hmm
+        | Some given_state_dist => inr given_state_dist
+        end) (fun given_state_dist =>
+  bind (ipsi_enc given_diagnosis_ipsi) (fun diagnosis_encoding =>
+  let observation_matrix := ipsi_obs in
+  let dgs_ipsi := NumpyPipelines.np_vecmat (np_b2q diagnosis_encoding) (np_transpose 0 observation_matrix) in
+  bind (contra_enc given_diagnosis_contra) (fun diagnosis_encoding =>
+  let observation_matrix := contra_obs in
+  let dgs_contra := NumpyPipelines.np_vecmat (np_b2q diagnosis_encoding) (np_transpose 0 observation_matrix) in
+  let joint_diagnosis_and_state := np_mul2 (np_outer dgs_ipsi dgs_contra) given_state_dist in
+  inr (np_div2 joint_diagnosis_and_state (np_sum2 joint_diagnosis_and_state))))).
+
+(** ** marginalize
+    if given_state_dist is None: given_state_dist = self.state_dist(t_stage=t_stage, mode=mode)
+    marginalize_over_states = {}
+    for side in ["ipsi", "contra"]:                                  (unrolled)
+        side_graph = getattr(self, side).graph
+        marginalize_over_states[side] = matrix.compute_encoding(lnls=side_graph.lnls.keys(),
+            pattern=involvement.get(side, {}), base=3 if self.is_trinary else 2)
+    return marginalize_over_states["ipsi"] @ given_state_dist @ marginalize_over_states["contra"]
+    [given_state_dist] = Python None, or an array that may be NaN *)
+Definition np_bi_marginalize (ipsi_evo contra_evo : mat) (pmf_of : string -> res vec)
+  (ipsi_sd contra_sd : string -> bool -> res vec) (ipsi_lnls contra_lnls : list string) (is_trinary : bool)
+  (involvement_ipsi involvement_contra : pattern) (given_state_dist : option (option mat))
+  (t_stage : string) (hmm : bool) : res (option Qc) :=
+  bind (match given_state_dist with
+        | None => bind (np_bi_state_dist ipsi_evo contra_evo pmf_of ipsi_sd contra_sd t_stage hmm) (fun x => inr (Some x))
+        | Some given_state_dist => inr given_state_dist
+        end) (fun given_state_dist =>
+  bind (np_encoding_res ipsi_lnls involvement_ipsi (if is_trinary then 3 else 2)%nat) (fun mos_ipsi =>
+  bind (np_encoding_res contra_lnls involvement_contra (if is_trinary then 3 else 2)%nat) (fun mos_contra =>
+  inr (np_dotb_nan (np_bvecmat_nan mos_ipsi given_state_dist) mos_contra)))).
+
+(** ** risk
+    posterior_state_dist = self.posterior_state_dist(given_params=given_params, given_state_dist=given_state_dist,
+                                                     given_diagnosis=given_diagnosis, t_stage=t_stage, mode=mode)
+    return self.marginalize(involvement, posterior_state_dist)          (t_stage="early", mode="HMM": unused) *)
+Definition np_bi_risk (ipsi_evo contra_evo : mat) (pmf_of : string -> res vec)
+  (ipsi_sd contra_sd : string -> bool -> res vec) (ipsi_obs contra_obs : mat) (ipsi_enc contra_enc : diagnosis -> res bvec)
+  (ipsi_lnls contra_lnls : list string) (is_trinary : bool)
+  (involvement_ipsi involvement_contra : pattern) (given_state_dist : option mat)
+  (given_diagnosis_ipsi given_diagnosis_contra : diagnosis) (t_stage : string) (hmm : bool) : res (option Qc) :=
+  bind (np_bi_posterior_state_dist ipsi_evo contra_evo pmf_of ipsi_sd contra_sd ipsi_obs contra_obs ipsi_enc contra_enc
+          given_state_dist given_diagnosis_ipsi given_diagnosis_contra t_stage hmm) (fun posterior_state_dist =>
+  bind (np_bi_marginalize ipsi_evo contra_evo pmf_of ipsi_sd contra_sd ipsi_lnls contra_lnls is_trinary
+          involvement_ipsi involvement_contra (Some posterior_state_dist) "early"%string true) (fun x =>
+  inr x)).
+
+(** ** shapes *)
+Lemma bi_compute_encoding_len lnls p b e : base_ok b = true -> compute_encoding lnls p b = Some e ->
+  length e = (b ^ length lnls)%nat.
+Proof.
+  intros Hb. rewrite compute_encoding_gen by exact Hb. destruct (forallb (enc_okb b p) lnls); [|discriminate].
+  intros E. inversion E. rewrite map_length. apply all_states_length.
+Qed.
+Lemma bi_kron_bvec_len u v : length (kron_bvec u v) = (length u * length v)%nat.
+Proof. unfold kron_bvec. apply flat_map_length_const. intros a _. apply map_length. Qed.
+Lemma bi_fold_res_inl {A B} (f : A -> B -> res A) e : forall l,
+  fold_left (fun (acc : res A) (b : B) => bind acc (fun a => f a b)) l (inl e) = inl e.
+Proof. induction l as [|b l IH]; [reflexivity|]. exact IH. Qed.
+
+(** the encoding of a diagnosis has one entry per column of the observation matrix *)
+Lemma bi_diagnosis_encoding_len u d enc : diagnosis_encoding u d = inr enc ->
+  length enc = (2 ^ (length (u_mods u) * u_n u))%nat.
+Proof.
+  unfold diagnosis_encoding, u_mod_names. rewrite <- (map_length fst (u_mods u)).
+  change (u_n u) with (length (u_lnls u)).
+  generalize (map fst (u_mods u)) as names. intros names.
+  assert (G : forall acc0, fold_left (fun (acc : res bvec) m =>
+      bind acc (fun enc =>
+        let pat := match diag_get m d with None => [] | Some p => p end in
+        match compute_encoding (u_lnls u) pat 2 with
+        | None => inl MValue
+        | Some e => inr (kron_bvec enc e)
+        end)) names (inr acc0) = inr enc -> length enc = (length acc0 * 2 ^ (length names * length (u_lnls u)))%nat).
+  { induction names as [|m names IH]; intros acc0; cbn [fold_left length bind].
+    - intros E. inversion E. cbn [Nat.mul Nat.pow]. lia.
+    - cbv zeta.
+      destruct (compute_encoding (u_lnls u) match diag_get m d with None => [] | Some p => p end 2) as [e'|] eqn:Ec.
+      + intros E. rewrite (IH _ E), bi_kron_bvec_len, (bi_compute_encoding_len _ _ 2 _ eq_refl Ec).
+        cbn [Nat.mul]. rewrite Nat.pow_add_r. lia.
+      + rewrite (bi_fold_res_inl (fun enc0 m0 =>
+          match compute_encoding (u_lnls u) match diag_get m0 d with None => [] | Some p => p end 2 with
+          | None => inl MValue | Some e => inr (kron_bvec enc0 e) end)). discriminate. }
+  intros E. rewrite (G [true] E). cbn [length]. lia.
+Qed.
+
+Lemma bi_dot_comm : forall u v : vec, dot u v = dot v u.
+Proof. induction u as [|a u IH]; intros [|b v]; cbn [dot]; try reflexivity. rewrite IH. ring. Qed.
+
+(** [enc @ O.T] = the rows of the observation matrix dotted with the encoding *)
+Lemma bi_np_vecmat_obs_T u enc : wf_graphb (u_graph u) = true ->
+  length enc = (2 ^ (length (u_mods u) * u_n u))%nat ->
+  NumpyPipelines.np_vecmat (np_b2q enc) (np_transpose 0 (observation_matrix u)) = matvec (observation_matrix u) (map b2q enc).
+Proof.
+  intros Hwf Hl. unfold np_b2q.
+  rewrite (np_vecmat_transpose (2 ^ (length (u_mods u) * u_n u)) (map b2q enc) (observation_matrix u)).
+  - unfold matvec. apply map_ext. intros r. apply bi_dot_comm.
+  - assert (2 ^ (length (u_mods u) * u_n u) <> 0)%nat by (apply Nat.pow_nonzero; lia). lia.
+  - rewrite map_length. exact Hl.
+  - apply (observation_matrix_shape u Hwf).
+Qed.
+
+Lemma bi_is_trinary_base g : wf_graphb g = true -> (if Nat.eqb (g_base g) 3 then 3 else 2)%nat = g_base g.
+Proof. intros Hwf. destruct (wfb_base g Hwf) as [-> | ->]; reflexivity. Qed.
+
+(** the joint prior of a well-formed model is an [nstates ipsi] x [nstates contra] array *)
+Lemma bi_state_dist_shape b t hmm J :
+  wf_graphb (u_graph (b_ipsi b)) = true -> wf_graphb (u_graph (b_contra b)) = true ->
+  bi_state_dist b t hmm = inr J -> is_shape (nstates (b_ipsi b)) (nstates (b_contra b)) J.
+Proof.
+  intros Hgi Hgc E. split; [exact (bi_state_dist_length b t hmm J E)|].
+  unfold bi_state_dist in E. destruct hmm.
+  - destruct (get_pmf (b_ipsi b) t) as [e|pm]; cbn [bind] in E; [discriminate|]. injection E as <-.
+    unfold joint_of_evos. unfold matmul at 1. apply Forall_forall. intros r Hr. apply in_map_iff in Hr.
+    destruct Hr as [v [<- _]]. rewrite ncols_state_dist_evo. apply vecmat_w_length. exact (state_dist_evo_rows _ Hgc).
+  - destruct (state_dist_bn (u_graph (b_ipsi b))) as [e|si]; cbn [bind] in E; [discriminate|].
+    destruct (state_dist_bn (u_graph (b_contra b))) as [e|sc] eqn:Ec; cbn [bind] in E; [discriminate|]. injection E as <-.
+    unfold outer. apply Forall_forall. intros r Hr. apply in_map_iff in Hr. destruct Hr as [a [<- _]].
+    unfold vscale. rewrite map_length. exact (state_dist_bn_length _ _ Ec).
+Qed.
+
+(** ** posterior_state_dist *)
+Lemma np_bi_posterior_core b prior di dc :
+  wf_graphb (u_graph (b_ipsi b)) = true -> wf_graphb (u_graph (b_contra b)) = true ->
+  bind (diagnosis_encoding (b_ipsi b) di) (fun de_i =>
+  let om_i := observation_matrix (b_ipsi b) in
+  let dgs_ipsi := NumpyPipelines.np_vecmat (np_b2q de_i) (np_transpose 0 om_i) in
+  bind (diagnosis_encoding (b_contra b) dc) (fun de_c =>
+  let om_c := observation_matrix (b_contra b) in
+  let dgs_contra := NumpyPipelines.np_vecmat (np_b2q de_c) (np_transpose 0 om_c) in
+  let joint_diagnosis_and_state := np_mul2 (np_outer dgs_ipsi dgs_contra) prior in
+  inr (np_div2 joint_diagnosis_and_state (np_sum2 joint_diagnosis_and_state))))
+  = bi_posterior_of b prior di dc.
+Proof.
+  intros Hgi Hgc. unfold bi_posterior_of.
+  destruct (diagnosis_encoding (b_ipsi b) di) as [e|ei] eqn:Ei; cbn [bind]; [reflexivity|].
+  destruct (diagnosis_encoding (b_contra b) dc) as [e|ec] eqn:Ec; cbn [bind]; [reflexivity|]. cbv zeta.
+  rewrite (bi_np_vecmat_obs_T _ ei Hgi (bi_diagnosis_encoding_len _ _ _ Ei)).
+  rewrite (bi_np_vecmat_obs_T _ ec Hgc (bi_diagnosis_encoding_len _ _ _ Ec)).
+  unfold np_div2, np_sum2.
+  change (np_mul2 (np_outer (matvec (observation_matrix (b_ipsi b)) (map b2q ei))
+                            (matvec (observation_matrix (b_contra b)) (map b2q ec))) prior)
+    with (hadamard (outer (matvec (observation_matrix (b_ipsi b)) (map b2q ei))
+                          (matvec (observation_matrix (b_contra b)) (map b2q ec))) prior).
+  destruct (Qc_eqb _ 0); reflexivity.
+Qed.
+
+Theorem np_bi_posterior_state_dist_model b given di dc t hmm :
+  wf_graphb (u_graph (b_ipsi b)) = true -> wf_graphb (u_graph (b_contra b)) = true ->
+  np_bi_posterior_state_dist (state_dist_evo (b_ipsi b)) (state_dist_evo (b_contra b)) (get_pmf (b_ipsi b))
+    (state_dist (b_ipsi b)) (state_dist (b_contra b)) (observation_matrix (b_ipsi b)) (observation_matrix (b_contra b))
+    (diagnosis_encoding (b_ipsi b)) (diagnosis_encoding (b_contra b)) given di dc t hmm
+  = bind (match given with None => bi_state_dist b t hmm | Some sd => inr sd end)
+         (fun prior => bi_posterior_of b prior di dc).
+Proof.
+  intros Hgi Hgc. unfold np_bi_posterior_state_dist. rewrite np_bi_state_dist_model.
+  destruct given as [prior|]; cbn [bind]; [exact (np_bi_posterior_core b prior di dc Hgi Hgc)|].
+  destruct (bi_state_dist b t hmm) as [e|prior]; cbn [bind]; [reflexivity|].
+  exact (np_bi_posterior_core b prior di dc Hgi Hgc).
+Qed.
+
+(** ** marginalize *)
+(** the code, for an array that may be NaN: the involvement patterns are encoded (and may raise ValueError) even when
+    the array is NaN *)
+Definition bi_marginalize_code (b : bilateral) (ii ic : pattern) (sd : option mat) : res (option Qc) :=
+  match compute_encoding (u_lnls (b_ipsi b)) ii (u_base (b_ipsi b)),
+        compute_encoding (u_lnls (b_contra b)) ic (u_base (b_ipsi b)) with
+  | Some ei, Some ec =>
+      inr (match sd with None => None | Some sd => Some (dot (vecmat_w (length ec) (map b2q ei) sd) (map b2q ec)) end)
+  | _, _ => inl MValue
+  end.
+Lemma bi_marginalize_code_some b ii ic sd :
+  bi_marginalize_code b ii ic (Some sd) = bind (bi_marginalize_of b ii ic sd) (fun r => inr (Some r)).
+Proof.
+  unfold bi_marginalize_code, bi_marginalize_of.
+  destruct (compute_encoding (u_lnls (b_ipsi b)) ii (u_base (b_ipsi b)));
+    destruct (compute_encoding (u_lnls (b_contra b)) ic (u_base (b_ipsi b))); reflexivity.
+Qed.
+
+(** what the lemma needs of a given array: its rows are as long as the contralateral encoding *)
+Definition contra_width (b : bilateral) : nat := (u_base (b_ipsi b) ^ u_n (b_contra b))%nat.
+Lemma contra_width_wf b : wf_bilateral b = true -> contra_width b = nstates (b_contra b).
+Proof. intros H. destruct (wf_bi_parts b H) as (_ & _ & _ & Hb). unfold contra_width, nstates. rewrite Hb. reflexivity. Qed.
+
+Lemma np_bi_marginalize_core b ii ic (sd : option mat) : wf_graphb (u_graph (b_ipsi b)) = true ->
+  (forall M, sd = Some M -> ncols M = contra_width b) ->
+  bind (np_encoding_res (u_lnls (b_ipsi b)) ii (if Nat.eqb (u_base (b_ipsi b)) 3 then 3 else 2)%nat) (fun mos_ipsi =>
+  bind (np_encoding_res (u_lnls (b_contra b)) ic (if Nat.eqb (u_base (b_ipsi b)) 3 then 3 else 2)%nat) (fun mos_contra =>
+  inr (np_dotb_nan (np_bvecmat_nan mos_ipsi sd) mos_contra)))
+  = bi_marginalize_code b ii ic sd.
+Proof.
+  intros Hgi Hsd. unfold bi_marginalize_code, np_encoding_res. unfold u_base at 1 2. rewrite (bi_is_trinary_base _ Hgi).
+  fold (u_base (b_ipsi b)).
+  destruct (compute_encoding (u_lnls (b_ipsi b)) ii (u_base (b_ipsi b))) as [ei|]; cbn [bind]; [|reflexivity].
+  destruct (compute_encoding (u_lnls (b_contra b)) ic (u_base (b_ipsi b))) as [ec|] eqn:Ec; cbn [bind]; [|reflexivity].
+  destruct sd as [M|]; cbn [np_bvecmat_nan np_dotb_nan]; [|reflexivity].
+  unfold NumpyPipelines.np_vecmat, np_b2q. rewrite (Hsd M eq_refl).
+  rewrite (bi_compute_encoding_len _ _ _ _ (wf_base_ok _ Hgi) Ec). reflexivity.
+Qed.
+
+Theorem np_bi_marginalize_given_model b ii ic sd t hmm : wf_graphb (u_graph (b_ipsi b)) = true ->
+  (forall M, sd = Some M -> ncols M = contra_width b) ->
+  np_bi_marginalize (state_dist_evo (b_ipsi b)) (state_dist_evo (b_contra b)) (get_pmf (b_ipsi b))
+    (state_dist (b_ipsi b)) (state_dist (b_contra b)) (u_lnls (b_ipsi b)) (u_lnls (b_contra b))
+    (Nat.eqb (u_base (b_ipsi b)) 3) ii ic (Some sd) t hmm
+  = bi_marginalize_code b ii ic sd.
+Proof. intros Hgi Hsd. unfold np_bi_marginalize. cbn [bind]. exact (np_bi_marginalize_core b ii ic sd Hgi Hsd). Qed.
+
+Theorem np_bi_marginalize_model b ii ic t hmm : wf_bilateral b = true ->
+  (forall sd, ncols sd = nstates (b_contra b) ->
+   np_bi_marginalize (state_dist_evo (b_ipsi b)) (state_dist_evo (b_contra b)) (get_pmf (b_ipsi b))
+     (state_dist (b_ipsi b)) (state_dist (b_contra b)) (u_lnls (b_ipsi b)) (u_lnls (b_contra b))
+     (Nat.eqb (u_base (b_ipsi b)) 3) ii ic (Some (Some sd)) t hmm
+   = bind (bi_marginalize_of b ii ic sd) (fun r => inr (Some r)))
+  /\
+   np_bi_marginalize (state_dist_evo (b_ipsi b)) (state_dist_evo (b_contra b)) (get_pmf (b_ipsi b))
+     (state_dist (b_ipsi b)) (state_dist (b_contra b)) (u_lnls (b_ipsi b)) (u_lnls (b_contra b))
+     (Nat.eqb (u_base (b_ipsi b)) 3) ii ic None t hmm
+   = bind (bi_state_dist b t hmm) (fun sd => bind (bi_marginalize_of b ii ic sd) (fun r => inr (Some r))).
+Proof.
+  intros Hwf. destruct (wf_bilateral_graphs b Hwf) as [Hgi Hgc]. split.
+  - intros sd Hsd. rewrite (np_bi_marginalize_given_model b ii ic (Some sd) t hmm Hgi).
+    + apply bi_marginalize_code_some.
+    + intros M E. injection E as <-. rewrite (contra_width_wf b Hwf). exact Hsd.
+  - unfold np_bi_marginalize. rewrite np_bi_state_dist_model.
+    destruct (bi_state_dist b t hmm) as [e|J] eqn:EJ; cbn [bind]; [reflexivity|].
+    rewrite (np_bi_marginalize_core b ii ic (Some J) Hgi).
+    + apply bi_marginalize_code_some.
+    + intros M E. injection E as <-. rewrite (contra_width_wf b Hwf).
+      exact (ncols_shape _ _ _ (bi_state_dist_shape b t hmm J Hgi Hgc EJ) (nstates_pos_u _ Hgi)).
+Qed.
+
+(** ** risk *)
+(** the code, exactly: the involvement patterns are encoded even when the posterior is NaN *)
+Definition bi_risk_code (b : bilateral) (ii ic : pattern) (prior : res mat) (di dc : diagnosis) : res (option Qc) :=
+  bind prior (fun prior => bind (bi_posterior_of b prior di dc) (fun po => bi_marginalize_code b ii ic po)).
+
+(** the posterior has the width of the prior *)
+Lemma bi_posterior_ncols b prior di dc post :
+  wf_graphb (u_graph (b_ipsi b)) = true -> wf_graphb (u_graph (b_contra b)) = true ->
+  is_shape (nstates (b_ipsi b)) (nstates (b_contra b)) prior ->
+  bi_posterior_of b prior di dc = inr (Some post) -> ncols post = nstates (b_contra b).
+Proof.
+  intros Hgi Hgc [Hl Hr] E. unfold bi_posterior_of in E.
+  destruct (diagnosis_encoding (b_ipsi b) di) as [e|ei]; cbn [bind] in E; [discriminate|].
+  destruct (diagnosis_encoding (b_contra b) dc) as [e|ec]; cbn [bind] in E; [discriminate|]. cbv zeta in E.
+  destruct (Qc_eqb _ 0); [discriminate|]. injection E as <-.
+  pose proof (nstates_pos_u _ Hgi) as Hp.
+  pose proof (proj1 (observation_matrix_shape _ Hgi)) as HOi.
+  pose proof (proj1 (observation_matrix_shape _ Hgc)) as HOc.
+  unfold matvec.
+  destruct (observation_matrix (b_ipsi b)) as [|ri Oi]; [cbn [length] in HOi; unfold nstates in Hp; lia|].
+  destruct prior as [|p0 prior]; [cbn [length] in Hl; lia|].
+  cbn [map outer hadamard map2 ncols]. unfold vmul, vscale. rewrite map_length, map2_length, !map_length.
+  inversion Hr as [|? ? Hp0 _]; subst. rewrite Hp0, HOc. apply Nat.min_id.
+Qed.
+
+Theorem np_bi_risk_code b ii ic given di dc t hmm : wf_bilateral b = true ->
+  (forall sd, given = Some sd -> is_shape (nstates (b_ipsi b)) (nstates (b_contra b)) sd) ->
+  np_bi_risk (state_dist_evo (b_ipsi b)) (state_dist_evo (b_contra b)) (get_pmf (b_ipsi b))
+    (state_dist (b_ipsi b)) (state_dist (b_contra b)) (observation_matrix (b_ipsi b)) (observation_matrix (b_contra b))
+    (diagnosis_encoding (b_ipsi b)) (diagnosis_encoding (b_contra b)) (u_lnls (b_ipsi b)) (u_lnls (b_contra b))
+    (Nat.eqb (u_base (b_ipsi b)) 3) ii ic given di dc t hmm
+  = bi_risk_code b ii ic (match given with None => bi_state_dist b t hmm | Some sd => inr sd end) di dc.
+Proof.
+  intros Hwf Hgiven. destruct (wf_bilateral_graphs b Hwf) as [Hgi Hgc]. unfold np_bi_risk, bi_risk_code.
+  rewrite (np_bi_posterior_state_dist_model b given di dc t hmm Hgi Hgc).
+  assert (G : forall pr : res mat,
+    (forall prior, pr = inr prior -> is_shape (nstates (b_ipsi b)) (nstates (b_contra b)) prior) ->
+    bind (bind pr (fun prior => bi_posterior_of b prior di dc)) (fun posterior_state_dist =>
+      bind (np_bi_marginalize (state_dist_evo (b_ipsi b)) (state_dist_evo (b_contra b)) (get_pmf (b_ipsi b))
+              (state_dist (b_ipsi b)) (state_dist (b_contra b)) (u_lnls (b_ipsi b)) (u_lnls (b_contra b))
+              (Nat.eqb (u_base (b_ipsi b)) 3) ii ic (Some posterior_state_dist) "early"%string true) (fun x => inr x))
+    = bind pr (fun prior => bind (bi_posterior_of b prior di dc) (fun po => bi_marginalize_code b ii ic po))).
+  { intros pr Hshape. destruct pr as [e|prior]; cbn [bind]; [reflexivity|]. specialize (Hshape prior eq_refl).
+    destruct (bi_posterior_of b prior di dc) as [e|po] eqn:Epo; cbn [bind]; [reflexivity|].
+    rewrite bind_inr_id. apply np_bi_marginalize_given_model; [exact Hgi|].
+    intros M ->. rewrite (contra_width_wf b Hwf). exact (bi_posterior_ncols b prior di dc M Hgi Hgc Hshape Epo). }
+  apply G. intros prior Ep. destruct given as [sd|].
+  - injection Ep as <-. apply Hgiven. reflexivity.
+  - exact (bi_state_dist_shape b t hmm prior Hgi Hgc Ep).
+Qed.
+
+(** the code agrees with the model's [bi_risk] whenever both involvement patterns can be encoded in the model's base
+    (for invalid patterns and a NaN posterior the model answers NaN, the code raises ValueError) *)
+Lemma bi_risk_code_model b ii ic prior di dc :
+  compute_encoding (u_lnls (b_ipsi b)) ii (u_base (b_ipsi b)) <> None ->
+  compute_encoding (u_lnls (b_contra b)) ic (u_base (b_ipsi b)) <> None ->
+  bi_risk_code b ii ic prior di dc
+  = bind prior (fun prior => bind (bi_posterior_of b prior di dc) (fun po =>
+      match po with None => inr None | Some post => bind (bi_marginalize_of b ii ic post) (fun r => inr (Some r)) end)).
+Proof.
+  intros Hi Hc. unfold bi_risk_code. destruct prior as [e|prior]; cbn [bind]; [reflexivity|].
+  destruct (bi_posterior_of b prior di dc) as [e|[post|]]; cbn [bind]; [reflexivity|apply bi_marginalize_code_some|].
+  unfold bi_marginalize_code.
+  destruct (compute_encoding (u_lnls (b_ipsi b)) ii (u_base (b_ipsi b))); [|congruence].
+  destruct (compute_encoding (u_lnls (b_contra b)) ic (u_base (b_ipsi b))); [reflexivity|congruence].
+Qed.
+
+Theorem np_bi_risk_model b ii ic di dc t hmm : wf_bilateral b = true ->
+  compute_encoding (u_lnls (b_ipsi b)) ii (u_base (b_ipsi b)) <> None ->
+  compute_encoding (u_lnls (b_contra b)) ic (u_base (b_ipsi b)) <> None ->
+  np_bi_risk (state_dist_evo (b_ipsi b)) (state_dist_evo (b_contra b)) (get_pmf (b_ipsi b))
+    (state_dist (b_ipsi b)) (state_dist (b_contra b)) (observation_matrix (b_ipsi b)) (observation_matrix (b_contra b))
+    (diagnosis_encoding (b_ipsi b)) (diagnosis_encoding (b_contra b)) (u_lnls (b_ipsi b)) (u_lnls (b_contra b))
+    (Nat.eqb (u_base (b_ipsi b)) 3) ii ic None di dc t hmm
+  = bi_risk b ii ic di dc t hmm.
+Proof.
+  intros Hwf Hi Hc. rewrite (np_bi_risk_code b ii ic None di dc t hmm Hwf) by (intros sd E; discriminate E).
+  unfold bi_risk. apply bi_risk_code_model; assumption.
+Qed.
